@@ -89,6 +89,12 @@ chk("C06", "venum",
     "Trusted: the policy table (specification side). 7 cross-site GET state changes are recorded as known findings (keys C06|cross-site-state-change|<handler>|GET). Okta handlers are registered but answer 'misconfiguration' without an Okta backend.",
     "DESIGN.md 3 C06")
 
+chk("C08", "venum+vexplore",
+    "exhaustive enumeration of the authorization matrix on the real management handlers with before/after row digests, and explicit-state BFS (canonical-state deduplication) of the admin-cache clause on the real IsAdminUser path",
+    "Matrix: 3 web-UI requirements x 7 actors (two plain users, admin by name, admin by group via the directory seam, automation admin, automation user, a name-prefix of the admin) x 7 credentials (cookie at password / +TOTP / +VIP / +U2F / FIDO2-only, keymaster client certificate, basic-auth) x 20 operations (U2F and TOTP token Update/Disable/Enable/Delete, U2F registration request and response with a real soft token answering the target's pending challenge, WebAuthn begin, TOTP generate, profile view, users list, add/delete user, bootstrap OTP, minting for an automation / non-automation / admin name) x 5 targets x 6 token indexes; the reference decision is computed from the statement and compared with the status class and with which users' rows changed (refused => nothing changed; allowed => only the target changed). Cache clause: BFS over {admin-only request, tick 1/4/5/6 min, demote, promote, directory down/up} to depth 6 (thorough 8): once the directory has answered and membership has been stable for 5 minutes the decision must be current.",
+    "Trusted: the reference decision table; directory answers come through the authutil seam (GetLDAPUserGroups).",
+    "DESIGN.md 3 C08")
+
 NOT_YET = {
 }
 
